@@ -166,6 +166,9 @@ class Fn(object):
         if isinstance(e, ast.BinOp) and isinstance(e.op, (ast.Sub, ast.Add)):
             b1, a, ta = self.expr(e.left, env)
             b2, c, tc = self.expr(e.right, env)
+            if isinstance(e.op, ast.Add) and ta.startswith('List ') and tc.startswith('List ') \
+                    and (ta == tc or 'List ?' in (ta, tc)):
+                return b1 + b2, '(%s ++ %s)' % (a, c), tc if ta == 'List ?' else ta    # concatenation of lists
             if ta != 'V' or tc != 'V':
                 raise Unsupported('arithmetic on non-values')
             n = self.fresh()
@@ -475,6 +478,8 @@ class Fn(object):
         if isinstance(s, (ast.Assign, ast.AugAssign)):
             tgs = s.targets if isinstance(s, ast.Assign) else [s.target]
             return all((isinstance(t, ast.Name) and t.id in self.tr['ignore_locals']) or
+                       (isinstance(t, ast.Subscript) and isinstance(t.value, ast.Name) and t.value.id in self.tr['ignore_locals']
+                        and ast.unparse(t) not in self.tr.get('subscript_events', {})) or
                        (isinstance(t, ast.Attribute) and isinstance(t.value, ast.Name) and t.value.id == 'self'
                         and t.attr in self.tr['ignore_fields']) for t in tgs)
         if isinstance(s, ast.Expr) and isinstance(s.value, ast.Call):
@@ -528,6 +533,11 @@ class Fn(object):
             if self.in_loop:
                 raise Unsupported('raise inside a loop')
             return pad + 'let trace := trace ++ [Event.%s]\n' % self.tr['raise_events'][s.exc.func.id] + pad + 'some trace'
+        if isinstance(s, ast.Assign) and len(s.targets) == 1 and isinstance(s.targets[0], ast.Subscript) \
+                and ast.unparse(s.targets[0]) in self.tr.get('subscript_events', {}):
+            # x[key] = ... on a declared entry: an event (the value is not looked at)
+            return pad + 'let trace := trace ++ [Event.%s]\n' % self.tr['subscript_events'][ast.unparse(s.targets[0])] + \
+                self.block(rest, env, ret, self_ty, indent)
         if isinstance(s, ast.Raise) and isinstance(s.exc, ast.Name) and s.exc.id in self.tr.get('raise_events', {}):
             if self.in_loop:                                  # raise <declared local>
                 raise Unsupported('raise inside a loop')
@@ -765,6 +775,10 @@ class Fn(object):
                     t, lean_name(x), inner, after)
                 return self.wrap(b, term, pad)
             raise Unsupported('for loop of this shape')
+        if isinstance(s, ast.AugAssign) and isinstance(s.target, ast.Name) and isinstance(s.op, (ast.Sub, ast.Add)):
+            new = ast.Assign(targets=[s.target], value=ast.BinOp(left=ast.Name(id=s.target.id, ctx=ast.Load()),
+                                                                   op=s.op, right=s.value))
+            return self.block([new] + rest, env, ret, self_ty, indent)
         if isinstance(s, ast.Assert):
             b, t = self.cond(s.test, env)
             body = pad + 'if %s then\n%s\n%selse\n%s  none' % (t, self.block(rest, env, ret, self_ty, indent + 1), pad, pad)
@@ -1154,6 +1168,7 @@ def translate(spec, repo):
                 'lock_events': u.get('lock_events', {}), 'try_handlers': u.get('try_handlers', {}),
                 'assigned_input_events': u.get('assigned_input_events', {}),
                 'try_finally': u.get('try_finally'), 'refuse_try': u.get('refuse_try', False),
+                'subscript_events': u.get('subscript_events', {}),
                 'units': dict((k_, v_) for k_, v_ in trace_units.items() if k_ != own_key)}))
             env = dict((p_, t) for p_, t in u['params'].items() if t != 'Opaque')
             for decl in u.get('assigned_inputs', {}).values():
@@ -1194,9 +1209,25 @@ def translate(spec, repo):
             if ty_ != u['returns']:
                 raise Unsupported('%s: the argument is a %s, spec says %s' % (u['lean_name'], ty_, u['returns']))
             sig = ' '.join('(%s : %s)' % (lean_name(n_), lean_ty(t)) for (n_, t) in iparams)
-            out.append('/-- argument %d of `%s(...)` in `%s.%s` -/' % (u['arg'], u['call'], u.get('class'), u['name']))
-            out.append('def %s %s : Option %s :=\n%s\n' % (u['lean_name'], sig, u['returns'],
+            out.append('/-- argument %d of `%s(...)` in `%s%s` -/' % (
+                u['arg'], u['call'], (u['class'] + '.') if u.get('class') else '', u['name']))
+            out.append('def %s %s : Option %s :=\n%s\n' % (u['lean_name'], sig, lean_ty_atom(u['returns']),
                                                            Fn.wrap(b_, '  some %s' % t_, '  ')))
+        elif kind == 'value':
+            # a function or method that computes a value from declared inputs (readings of self, of other objects and
+            # of calls, by their source text) and its non-opaque parameters
+            want = (['self'] if u.get('class') else []) + list(u['params'])
+            if got != want:
+                raise Unsupported('signature of %s is %s, spec says %s' % (u['name'], got, want))
+            table, iparams = unit_inputs(u)
+            tr = Fn(spec, records, funcs, dict(ctx, cls=None, inputs=table))
+            env = dict((p_, t) for p_, t in u['params'].items() if t != 'Opaque')
+            body = tr.block(fn.body, env, u['returns'], None, 1)
+            sig = ' '.join(['(%s : %s)' % (lean_name(n_), lean_ty(t)) for (n_, t) in iparams] +
+                           ['(%s : %s)' % (lean_name(p_), lean_ty(t)) for p_, t in u['params'].items() if t != 'Opaque'])
+            out.append('def %s %s : Option %s :=\n%s\n' % (
+                ('%s_%s' % (cls_name(u['class']), u['name'].lstrip('_'))) if u.get('class') else lean_name(u['name'].lstrip('_')),
+                sig, u['returns'], body))
         elif kind == 'exit_map':
             # a function whose body is one `try`: what it returns when the body ends normally (as a function of the
             # declared inputs) and when the body raises an exception of a class a handler names.  A handler is
